@@ -342,29 +342,35 @@ fn rand_calls(rng: &mut Rng, n: usize) -> String {
     (0..n).map(|_| *rng.pick(&['n', 'n', 'r', 'N', 'R'])).collect()
 }
 
-/// event tokens: the bytes of `s` with faults sprinkled in
+/// event tokens: the bytes of `s` with faults sprinkled in (also before the first byte, and
+/// several mixed faults in one gap)
 fn fault_events(rng: &mut Rng, s: &[u8], allow_other: bool) -> String {
     let mut toks: Vec<String> = Vec::new();
+    let mut gap = |rng: &mut Rng, toks: &mut Vec<String>, force: bool| {
+        let n = if force { rng.range(1, 3) } else if rng.chance(1, 2) { 0 } else { rng.range(1, 3) };
+        for _ in 0..n {
+            match rng.below(8) {
+                0 | 1 | 2 => toks.push("W".into()),
+                3 | 4 => toks.push("I".into()),
+                5 if allow_other => toks.push(match rng.below(4) {
+                    0 => "O".to_string(),
+                    1 => format!("O{}", (b'a' + rng.below(16) as u8) as char),
+                    2 => "E".to_string(),
+                    _ => rng.pick(&["Ee", "Ex"]).to_string(),
+                }),
+                _ => toks.push("W".into()),
+            }
+        }
+    };
+    if rng.chance(1, 4) {
+        gap(rng, &mut toks, true);
+    }
     let mut i = 0;
     while i < s.len() {
         let n = rng.range(1, 10).min(s.len() - i);
         toks.push(tok(&s[i..i + n]));
         i += n;
-        match rng.below(8) {
-            0 | 1 => toks.push("W".into()),
-            2 => toks.push("I".into()),
-            3 if allow_other => toks.push(match rng.below(4) {
-                0 => "O".to_string(),
-                1 => format!("O{}", (b'a' + rng.below(16) as u8) as char),
-                2 => "E".to_string(),
-                _ => rng.pick(&["Ee", "Ex"]).to_string(),
-            }),
-            4 => {
-                toks.push("W".into());
-                toks.push("W".into());
-            }
-            _ => {}
-        }
+        gap(rng, &mut toks, false);
     }
     if toks.is_empty() {
         toks.push("-".into());
@@ -492,7 +498,7 @@ fn gen_c18(tier: &Tier, rng: &mut Rng, _w: usize, nw: usize, out: &mut Vec<Case>
                     format!("e{}", tok(&(0..l).map(|_| rng.byte()).collect::<Vec<_>>()))
                 }
                 6 | 7 => format!("t{}", if rng.chance(1, 5) { 1000 } else { rng.below(cap + 2) }),
-                8 => "c".to_string(),
+                8 => (*rng.pick(&["c", "q", "d", "q"])).to_string(),
                 _ => {
                     let l = if rng.chance(1, 6) { cap + 1 + rng.below(3) } else { rng.below(cap + 1) };
                     format!("i{}", tok(&(0..l).map(|_| rng.byte()).collect::<Vec<_>>()))
